@@ -140,6 +140,36 @@ Definition k8s_allows (nps : list netpol) (cl : cluster) (c : conn) : bool :=
   (match pa_pod (c_src c) with Some p => k8s_allows_dir nps cl TEgress p c | None => true end)
   && (match pa_pod (c_dst c) with Some p => k8s_allows_dir nps cl TIngress p c | None => true end).
 
+(* ------------------------------------------------------------------ which objects are Kubernetes NetworkPolicies *)
+(* The property speaks about NetworkPolicies, i.e. objects the Kubernetes API accepts (validation in
+   k8s.io/kubernetes/pkg/apis/networking/validation): In/NotIn need values, Exists/DoesNotExist take none; a
+   peer is either an ipBlock or selectors (at least one); ports are 1..65535, endPort >= port and only with
+   a numeric port.  For other objects the oracle is not consulted (the model must still agree with the code). *)
+Definition k8s_req_valid (r : req) : bool :=
+  match rq_op r with
+  | OpIn | OpNotIn => negb (is_nil (rq_vals r))
+  | OpExists | OpDoesNotExist => is_nil (rq_vals r)
+  end.
+Definition k8s_sel_valid (s : lsel) : bool := forallb k8s_req_valid (ls_exprs s).
+Definition k8s_osel_valid (s : option lsel) : bool := match s with Some s => k8s_sel_valid s | None => true end.
+Definition k8s_port_valid (pp : npport) : bool :=
+  match pp_port pp with
+  | KNoPort => match pp_end pp with None => true | Some _ => false end
+  | KNum n => N.leb 1 n && N.leb n 65535
+              && match pp_end pp with None => true | Some e => N.leb n e && N.leb e 65535 end
+  | KName s => negb (is_nil s) && match pp_end pp with None => true | Some _ => false end
+  end.
+Definition k8s_peer_valid (pe : peer) : bool :=
+  match pe_ip pe with
+  | Some _ => match pe_pod pe, pe_ns pe with None, None => true | _, _ => false end
+  | None => match pe_pod pe, pe_ns pe with None, None => false | _, _ => true end
+            && k8s_osel_valid (pe_pod pe) && k8s_osel_valid (pe_ns pe)
+  end.
+Definition k8s_rule_valid (r : nprule) : bool := forallb k8s_peer_valid (nr_peers r) && forallb k8s_port_valid (nr_ports r).
+Definition k8s_np_valid (np : netpol) : bool :=
+  negb (is_nil (np_ns np)) && k8s_sel_valid (np_sel np)
+  && forallb k8s_rule_valid (np_ingress np) && forallb k8s_rule_valid (np_egress np).
+
 (* ------------------------------------------------------------------ Calico semantics (Felix's view) *)
 
 Record cep := {
@@ -308,6 +338,7 @@ Definition ok_conn (c : case) (cn : endp * endp * N * N) : bool :=
            (cal_allows (k_impl c) (impl_party c s) (impl_party c d) proto dport).
 
 Definition ok_case (c : case) : bool :=
-  k_impl_clean c && Nat.eqb (length (k_impl c)) (length (k_nps c)) && forallb (ok_conn c) (k_conns c).
+  k_impl_clean c && Nat.eqb (length (k_impl c)) (length (k_nps c))
+  && (if forallb k8s_np_valid (k_nps c) then forallb (ok_conn c) (k_conns c) else true).
 
 Definition check_case (c : case) : bool * bool := (agree c, ok_case c).
